@@ -1211,3 +1211,82 @@ Proof.
   - apply Forall_cons_iff in Hadv. destruct Hadv as [[Ha Hp] Hr]. ib H st Hst. destruct st as [L1 Fs1].
     eapply IH; [|exact Hr|exact H]. eapply deliver_MInv; eassumption.
 Qed.
+
+Theorem star_round_MInv vs L Fs L' Fs' :
+  MInv vs L Fs -> star_round L Fs = Ok (L', Fs') ->
+  MInv vs L' Fs' /\ Forall (fun F' => r_msgs F' = []) Fs'.
+Proof.
+  intros (HW & HvL & Hvs & FL & FF) H.
+  pose proof (star_round_WInv' _ _ _ _ _ HW H) as HW'.
+  assert (Hmem : forall F, In F Fs -> In (r_id F) ids /\ In (r_vote F) (l :: ids))
+    by (intros F HF; exact (WInv_member vs L Fs F HW Hvs HF)).
+  destruct HW as (HL & Hid & Hv & HF).
+  unfold star_round in H.
+  ib H Fs1 H1. ib H L1 HL1. ib H L2 HL2. ib H Fs2 H2. injection H as HL' HFs'. subst L' Fs'.
+  pose proof HL as (I1 & I2 & I3 & I4 & I5 & I6 & I7 & I8 & I9 & I10 & I11 & I12 & I13 & I14).
+  apply mapM_Forall2 in H1.
+  (* step 1 *)
+  assert (G1 : Forall2 (fun F F1 =>
+     FInv' (r_heartbeat_elapsed L) (hbq L (r_id F)) F1 /\ Forall PC (r_msgs F1) /\
+     (hbq L (r_id F) ->
+      r_election_elapsed F1 = 0 /\
+      exists x, In x (replies l F1) /\ m_from x = r_id F /\ m_term x = t /\
+                (m_type x = MsgHeartbeatResponse \/ m_type x = MsgAppendResponse))) Fs Fs1).
+  { clear Hid Hv H2 HL HL1 HL2 HW'. revert HF FF Hmem.
+    induction H1 as [|F F1 Fs0 Fs10 Hx Hrest IH]; intros HF FF Hmem; [constructor|].
+    apply Forall_cons_iff in HF. destruct HF as [HF0 HFr].
+    apply Forall_cons_iff in FF. destruct FF as [FF0 FFr].
+    destruct (Hmem F (or_introl eq_refl)) as [Hi Hvo].
+    constructor; [|apply IH; [exact HFr|exact FFr|intros G HG; apply Hmem; right; exact HG]].
+    destruct (follower_exchange' _ _ _ I13 Hi HF0 Hx) as (_ & _ & A & B).
+    split; [exact A|]. split; [|exact B].
+    eapply follower_steps_PC; [exact HF0|exact Hi|exact Hvo| |exact Hx|exact FF0].
+    apply Forall_forall. intros x Hxin. split; [apply (QL_okF' _ _ _ I13 Hi Hxin)|].
+    apply to_peer_In in Hxin. rewrite Forall_forall in FL. apply FL. apply Hxin. }
+  (* step 2 *)
+  rewrite I3 in HL1.
+  assert (Hok2 : Forall (fun m => okL ids t m /\ PC m) (concat (map (replies l) Fs1))).
+  { apply Forall_forall. intros x Hx. apply in_concat in Hx. destruct Hx as (ys & Hys & Hx).
+    apply in_map_iff in Hys. destruct Hys as (F1 & <- & HF1).
+    assert (HF1' : FInv' (r_heartbeat_elapsed L) True F1 /\ Forall PC (r_msgs F1)).
+    { clear -G1 HF1. induction G1 as [|a b ? ? (A & B & _)]; [destruct HF1|].
+      destruct HF1 as [<-|HF1]; [|apply IHG1, HF1].
+      split; [|exact B]. destruct A as (A1 & A2 & A3 & A4 & A5 & A6 & A7 & A8 & A9).
+      repeat (split; [assumption|]). left. exact I. }
+    destruct HF1' as [(_ & _ & _ & _ & _ & _ & Q & _) Pq].
+    split; [eapply QF_okL; [exact Q|exact Hx]|].
+    unfold replies in Hx. apply to_peer_In in Hx. rewrite Forall_forall in Pq. apply Pq, Hx. }
+  assert (Hok2' : Forall (okL ids t) (concat (map (replies l) Fs1)))
+    by (eapply Forall_impl; [|exact Hok2]; intros a [A _]; exact A).
+  pose proof (LInv_empty_queue _ _ _ _ _ _ _ _ HL) as HL0.
+  destruct (LInv_steps' (hbq L) _ _ _ HL0 Hok2' HL1) as (J1 & LF1 & Act1).
+  destruct (leader_steps_PC (hbq L) _ _ _ HL0 HvL Hok2 HL1 (Forall_nil _)) as [Vo1 P1].
+  assert (J1' : LInv' (fun _ => False) L1).
+  { eapply LInv_all; [exact J1|]. intros id Hidin Hq.
+    rewrite <- Hid in Hidin. apply in_map_iff in Hidin. destruct Hidin as (F & <- & HFin).
+    destruct (Forall2_In_l _ _ _ _ G1 HFin) as (F1 & HF1 & (_ & _ & R)).
+    destruct (R Hq) as (_ & x & Hx & X1 & X2 & X3).
+    rewrite <- X1. apply Act1; [|exact X3|exact X2|rewrite X1; apply Hmem, HFin].
+    apply in_concat. exists (replies l F1). split; [apply in_map; exact HF1|exact Hx]. }
+  (* step 3 *)
+  destruct L2 as [L2 b2]. cbn [fst] in *.
+  destruct (leader_tick_PC _ _ _ J1' HL2 P1) as [Vo2 P2].
+  (* step 4 *)
+  assert (He1 : r_heartbeat_elapsed L1 = r_heartbeat_elapsed L).
+  { destruct LF1 as (_ & (_ & E & _) & _). exact E. }
+  apply mapM_Forall2 in H2.
+  assert (G2 : Forall (fun F2 => r_msgs F2 = []) Fs2).
+  { clear Hid Hv Hok2 Hok2' Act1 HL1 H1 HW' Hmem FF HF. revert Fs2 H2.
+    induction G1 as [|F F1 Fs0 Fs10 (C1 & _ & D1) Hrest IH]; intros Fs2 H2.
+    - apply Forall2_nil_inv in H2. rewrite H2. constructor.
+    - apply Forall2_cons_inv in H2. destruct H2 as (F2 & Fs20 & -> & Hx & Hr).
+      constructor; [|apply IH; exact Hr].
+      destruct C1 as (S1 & S2 & S3 & S4 & S5 & S6 & S7 & S8 & S9).
+      assert (Hle : r_election_elapsed F1 <= r_heartbeat_elapsed L).
+      { destruct S9 as [Hq|Hle]; [|exact Hle]. destruct (D1 Hq) as [Z _]. lia. }
+      rewrite tick_waits in Hx; [|cbn; congruence|cbn; lia].
+      cbn [bind fst] in Hx. injection Hx as <-. reflexivity. }
+  split; [|exact G2].
+  split; [exact HW'|]. split; [rewrite Vo2, Vo1; exact HvL|]. split; [exact Hvs|]. split; [exact P2|].
+  eapply Forall_impl; [|exact G2]. intros F2 E. rewrite E. constructor.
+Qed.
